@@ -10,7 +10,10 @@ package main
 
 import (
 	"fmt"
+	"regexp"
 	"strings"
+
+	"github.com/pentops/j5/lib/id62"
 
 	"github.com/bufbuild/protovalidate-go"
 	"google.golang.org/protobuf/reflect/protoreflect"
@@ -39,14 +42,14 @@ func obsFail(c compiled) string {
 
 // compileProps compiles the properties as one object (plus the sentinel); when
 // that fails, each property alone, so that the failure is attributed.
-func compileProps(props []genDecl) []unitResult {
+func compileProps(env EnumEnv, props []genDecl) []unitResult {
 	build := func(ps []genDecl) (unitResult, compiled) {
 		var pl []Prop
 		for _, p := range ps {
 			pl = append(pl, p.P)
 		}
 		pl = append(pl, sentinel)
-		c, _ := compileRoot("object", theEnum, "", pl)
+		c, _ := compileRoot("object", env, "", pl)
 		u := unitResult{props: ps}
 		if c.err != nil || c.panic != nil {
 			for range ps {
@@ -145,6 +148,7 @@ func runC12(cfg *vh.Config) error {
 	distinct := vh.Distinct{}
 	caseNo := 0
 	evals := 0
+	env := theEnum // per compile unit: with or without an explicit zero option
 
 	// ---- whole messages: one candidate value per field
 	messages := func(ur unitResult) {
@@ -177,7 +181,7 @@ func runC12(cfg *vh.Config) error {
 		}
 		var src []string
 		for _, p := range ur.props {
-			src = append(src, p.P.J5S(theEnum))
+			src = append(src, p.P.J5S(env))
 		}
 		reported := map[string]bool{}
 		for k := 0; k < 6; k++ {
@@ -189,7 +193,7 @@ func runC12(cfg *vh.Config) error {
 				if judged && r.Chance(75) { // mostly values the declaration allows, so that whole messages are accepted often enough
 					var good []FValue
 					for _, c := range cands[i] {
-						if ruleSem(theEnum, p.P, c) {
+						if ruleSem(env, p.P, c) {
 							good = append(good, c)
 						}
 					}
@@ -197,7 +201,7 @@ func runC12(cfg *vh.Config) error {
 						fvs[i] = vh.Pick(r, good)
 					}
 				}
-				if judged && !ruleSem(theEnum, p.P, fvs[i]) {
+				if judged && !ruleSem(env, p.P, fvs[i]) {
 					declared = false
 				}
 				shown = append(shown, fvs[i].String())
@@ -231,7 +235,7 @@ func runC12(cfg *vh.Config) error {
 			}
 			msgs = append(msgs, fmt.Sprintf("([%s], %s, %s)", strings.Join(terms, ";"), vt, specTerm(judged, declared)))
 		}
-		cf.Terms = append(cf.Terms, fmt.Sprintf("C12Obj %s [%s] [%s] [%s]", theEnum.Coq(), strings.Join(decls, ";"), strings.Join(outs, ";"), strings.Join(msgs, ";")))
+		cf.Terms = append(cf.Terms, fmt.Sprintf("C12Obj %s [%s] [%s] [%s]", env.Coq(), strings.Join(decls, ";"), strings.Join(outs, ";"), strings.Join(msgs, ";")))
 		res.Cases = append(res.Cases, vh.CaseRec{Case: caseNo, Stream: "message", Input: map[string]any{"j5s": strings.Join(src, "")}, Impl: map[string]any{"messages": len(msgs)}})
 		caseNo++
 	}
@@ -263,8 +267,8 @@ func runC12(cfg *vh.Config) error {
 					vd := validateField(val, ur.md, fd, fv)
 					evals++
 					res.Count(vd.String())
-					declared := judged && ruleSem(theEnum, p.P, fv)
-					input := map[string]any{"j5s": p.P.J5S(theEnum), "value": fv.String()}
+					declared := judged && ruleSem(env, p.P, fv)
+					input := map[string]any{"j5s": p.P.J5S(env), "value": fv.String()}
 					vt, ok := vd.Coq()
 					switch {
 					case !ok:
@@ -293,14 +297,14 @@ func runC12(cfg *vh.Config) error {
 				if p.Class != "compile-error" {
 					res.Count("compile-failed-unexpected")
 					res.Fail(vh.Failure{Case: caseNo, Stream: "compile", Sig: "C12 valid field declaration does not compile: " + firstWords(ur.note, 10),
-						Clause: "for all valid j5s field declarations (the declaration compiles)", Input: map[string]any{"j5s": p.P.J5S(theEnum)}, Got: ur.note})
+						Clause: "for all valid j5s field declarations (the declaration compiles)", Input: map[string]any{"j5s": p.P.J5S(env)}, Got: ur.note})
 				}
 			}
-			cf.Terms = append(cf.Terms, fmt.Sprintf("C12Case %s %d %s %s [%s]", theEnum.Coq(), idx, dterm, ur.obs[i], strings.Join(pairs, ";")))
-			res.Cases = append(res.Cases, vh.CaseRec{Case: caseNo, Stream: "decl", Input: map[string]any{"j5s": p.P.J5S(theEnum), "class": p.Class, "index": idx},
+			cf.Terms = append(cf.Terms, fmt.Sprintf("C12Case %s %d %s %s [%s]", env.Coq(), idx, dterm, ur.obs[i], strings.Join(pairs, ";")))
+			res.Cases = append(res.Cases, vh.CaseRec{Case: caseNo, Stream: "decl", Input: map[string]any{"j5s": p.P.J5S(env), "class": p.Class, "index": idx},
 				Impl: map[string]any{"emitted": ur.obs[i], "verdicts": implVals, "note": ur.note}})
 			if p.Class == "" && ur.ok[i] {
-				res.Sample(map[string]any{"j5s": p.P.J5S(theEnum), "emitted": ur.obs[i], "verdicts": implVals}, 6)
+				res.Sample(map[string]any{"j5s": p.P.J5S(env), "emitted": ur.obs[i], "verdicts": implVals}, 6)
 			}
 			caseNo++
 		}
@@ -311,13 +315,18 @@ func runC12(cfg *vh.Config) error {
 		if genAST {
 			res.Count("unit-via-ast")
 		}
+		env = theEnum
+		if r.Chance(30) {
+			env = theEnumZ
+			res.Count("unit-explicit-zero-option")
+		}
 		var props []genDecl
 		for i, n := 0, r.Range(2, 6); i < n; i++ {
 			scope := "c12"
 			if r.Chance(12) {
 				scope = "all"
 			}
-			props = append(props, genProp(r, fmt.Sprintf("f%d", i), scope, theEnum))
+			props = append(props, genProp(r, propName(r, i), scope, env))
 		}
 		// declarations expected not to compile go alone; so do those with an
 		// ill-formed pattern (they make every message of their type unvalidatable,
@@ -335,7 +344,7 @@ func runC12(cfg *vh.Config) error {
 			units = append([][]genDecl{together}, units...)
 		}
 		for _, up := range units {
-			for _, ur := range compileProps(up) {
+			for _, ur := range compileProps(env, up) {
 				messages(ur)
 				fields(ur)
 			}
@@ -347,12 +356,59 @@ func runC12(cfg *vh.Config) error {
 				if len(mixed) > 4 {
 					mixed = mixed[:4]
 				}
-				for _, ur := range compileProps(mixed) {
+				for _, ur := range compileProps(env, mixed) {
 					messages(ur)
 				}
 				break
 			}
 		}
+	}
+	// ---- the regular-expression engine on its own: the Coq parser + derivative matcher
+	// against Go's regexp (which CEL's matches() uses), on expressions of the fragment,
+	// on ill-formed ones, and on texts around their languages
+	rr := cfg.R.Fork("C12Re")
+	for i, n := 0, cfg.Scale(260, 4000); i < n; i++ {
+		var pat string
+		switch {
+		case i < len(patterns):
+			pat = patterns[i]
+		case i < len(patterns)+len(badPatterns):
+			pat = badPatterns[i-len(patterns)]
+		case i == len(patterns)+len(badPatterns):
+			pat = id62.PatternString
+		case rr.Chance(15):
+			pat = genBadPattern(rr)
+		default:
+			pat = genPattern(rr)
+		}
+		re, cerr := regexp.Compile(pat)
+		var pairs []string
+		var shown []map[string]any
+		if cerr == nil {
+			texts := patternTexts(rr, pat)
+			if _, ok := patAST[pat]; !ok {
+				texts = patternStrings(rr, pat)
+			}
+			for _, s := range texts {
+				m := re.MatchString(s)
+				evals++
+				pairs = append(pairs, fmt.Sprintf("(%s, %s)", vh.RunesTerm(s), vh.BoolTerm(m)))
+				if len(shown) < 5 {
+					shown = append(shown, map[string]any{"text": s, "match": m})
+				}
+				if m {
+					res.Count("regex-match")
+				} else {
+					res.Count("regex-nomatch")
+				}
+			}
+			res.Count("regex-compiles")
+		} else {
+			res.Count("regex-refused")
+		}
+		cf.Terms = append(cf.Terms, fmt.Sprintf("C12Re %s %s [%s]", vh.RunesTerm(pat), vh.BoolTerm(cerr == nil), strings.Join(pairs, ";")))
+		res.Cases = append(res.Cases, vh.CaseRec{Case: caseNo, Stream: "regex", Input: map[string]any{"pattern": pat}, Impl: map[string]any{"compiles": cerr == nil, "matches": shown}})
+		caseNo++
 	}
 	res.Evaluations = evals
 	res.Distinct = len(distinct)
